@@ -916,6 +916,20 @@ func TestVerif(t *testing.T) {
 					for _, k := range keys {
 						plans = append(plans, [2][]string{{k}, nil}, [2][]string{nil, {k}})
 					}
+					if !pairs {
+						// quick tier: two components failing in Shutdown - every pair for small topologies, three pairs otherwise
+						// ("a shutdown failure is reported but does not stop the remaining shutdowns": every failure is reported)
+						if len(keys) <= 5 {
+							for i, k1 := range keys {
+								for _, k2 := range keys[i+1:] {
+									plans = append(plans, [2][]string{nil, {k1, k2}})
+								}
+							}
+						} else {
+							last := len(keys) - 1
+							plans = append(plans, [2][]string{nil, {keys[0], keys[last]}}, [2][]string{nil, {keys[0], keys[1]}}, [2][]string{nil, {keys[last-1], keys[last]}})
+						}
+					}
 					if pairs {
 						for i, k1 := range keys {
 							for _, k2 := range keys {
